@@ -1,6 +1,10 @@
 (* C16 — Scalar codec primitives are total, canonical and mutually inverse.
    This file holds only the property-level statements; every proof is a single
-   [exact] of a lemma from Proofs/, followed by Print Assumptions. *)
+   [exact] of a lemma from Proofs/, followed by Print Assumptions.
+   The theorems C16_src_* (the model functions encode_varint / size_varint / load_varint / decode_varint / zigzag /
+   unzigzag used below ARE the Gallina obtained mechanically from the current Python source) live in
+   Properties/C16Src.v and Properties/C16SrcZigzag.v, which this file does not depend on: they are built and audited
+   by the non-alarming "source tie" stage of harness/props/c16.py only. *)
 From BP Require Import Base.Prelude Model.Types Model.Varint Model.Scalar Spec.Varint.
 From BP Require Import Proofs.BytesP Proofs.VarintP Proofs.ScalarP.
 From BP Require gen.Tables.
